@@ -63,9 +63,22 @@ Theorem C03_incomplete_is_ok :
 Proof. exact incomplete_is_ok. Qed.
 Print Assumptions C03_incomplete_is_ok.
 
+(* every window of the shape storage reports (unfilled slots only at the front) is evaluated without dereferencing a
+   nil entry, whatever the current lag *)
 Theorem C03_no_nil_dereference :
   forall b cs p minimum allowed now,
-    cp_offsets p = repeat None b ++ map Some cs -> (cs = [] -> cp_lag p <= allowed) ->
+    cp_offsets p = repeat None b ++ map Some cs ->
     exists r, eval_partition p minimum allowed now = Ok r.
 Proof. exact eval_partition_no_crash. Qed.
 Print Assumptions C03_no_nil_dereference.
+
+(* a window without any commit (partition known only through an owner update) is empty: OK, no first/last commit,
+   completeness 0/N - never "complete" (finding F4, repaired by /repo commit 21f3585) *)
+Theorem C03_window_without_commits :
+  forall b p minimum allowed now,
+    cp_offsets p = repeat None b ->
+    eval_partition p minimum allowed now =
+    Ok (StOK, None, None,
+        match b with O => f32_zero | _ => f32_div (f32_of_int 0) (f32_of_int (Z.of_nat b)) end).
+Proof. exact eval_partition_all_nil. Qed.
+Print Assumptions C03_window_without_commits.
